@@ -152,6 +152,44 @@ fn c06_q_xls_label_record() {
     std::mem::forget((a, enc));
 }
 
+fn noop_push_column(_col: u32, _buf: &mut String) {}
+fn empty_format(_args: std::fmt::Arguments<'_>) -> String {
+    String::new()
+}
+
+/// Defined-name formulas (Lbl rgce) shorter than the token they start with: Ok or Err, no panic. The token id is
+/// concrete (shape), the length and the other bytes symbolic; lettering and number formatting are stubbed away.
+fn defined_name_case(ptg: u8) {
+    let mut b: [u8; 12] = kani::any();
+    b[0] = ptg;
+    let s = any_slice(&b);
+    let a = parse_defined_names(s);
+    kani::cover!(s.len() == 12, "end");
+    std::mem::forget(a);
+}
+
+#[kani::proof]
+#[kani::unwind(4)]
+#[kani::stub(crate::utils::push_column, noop_push_column)]
+#[kani::stub(alloc::fmt::format, empty_format)]
+fn c06_q_xls_defined_name_ref3d() {
+    defined_name_case(0x3a)
+}
+#[kani::proof]
+#[kani::unwind(4)]
+#[kani::stub(crate::utils::push_column, noop_push_column)]
+#[kani::stub(alloc::fmt::format, empty_format)]
+fn c06_q_xls_defined_name_area3d() {
+    defined_name_case(0x3b)
+}
+#[kani::proof]
+#[kani::unwind(4)]
+#[kani::stub(crate::utils::push_column, noop_push_column)]
+#[kani::stub(alloc::fmt::format, empty_format)]
+fn c06_q_xls_defined_name_err3d() {
+    defined_name_case(0x3c)
+}
+
 #[kani::proof]
 #[kani::unwind(4)]
 fn c06_q_twin_xls() {
